@@ -238,6 +238,54 @@ func ruleQ7(c *an.Ctx) {
 					}
 				}
 			}
+			if !stops {
+				// the list may have been cut at the wildcard before the loop (`for _, b := range self.explicitBindings()`):
+				// the loop then ranges over a derived slice, and the code that derives it looks at the `*` id
+				direct := false
+				for b := range body {
+					for _, in := range b.Instrs {
+						if ia, ok := in.(*ssa.IndexAddr); ok && an.LoadsField(ia.X, list) {
+							direct = true
+						}
+					}
+				}
+				if !direct {
+					looks := false
+					seenFn := map[*ssa.Function]bool{}
+					var scan func(f *ssa.Function, d int)
+					scan = func(f *ssa.Function, d int) {
+						if f == nil || seenFn[f] || f.Blocks == nil || (f.Pkg != format.Pkg && f.Synthetic == "") || d > 4 {
+							return
+						}
+						seenFn[f] = true
+						for _, g := range an.WithAnon(f) {
+							an.Instrs(g, func(in ssa.Instruction) {
+								if bo, ok := in.(*ssa.BinOp); ok && (bo.Op == token.EQL || bo.Op == token.NEQ) {
+									if (an.LoadsField(bo.X, id) && an.IsStringConst(bo.Y, "*")) || (an.LoadsField(bo.Y, id) && an.IsStringConst(bo.X, "*")) {
+										looks = true
+									}
+								}
+								if cl := an.AsCallAny(in); cl != nil {
+									scan(cl.Common().StaticCallee(), d+1)
+								}
+								// predicates handed over as function values (slices.IndexFunc(list, (*BindStm).isWildcard))
+								for _, op := range in.Operands(nil) {
+									switch fv := (*op).(type) {
+									case *ssa.Function:
+										scan(fv, d+1)
+									case *ssa.MakeClosure:
+										if cf, ok := fv.Fn.(*ssa.Function); ok {
+											scan(cf, d+1)
+										}
+									}
+								}
+							})
+						}
+					}
+					scan(m, 0)
+					stops = looks
+				}
+			}
 			c.Check("Q7", "printing-stops-at-the-wildcard@"+an.FnName(m), h.Instrs[0].Pos(), stops,
 				"the loop that prints a binding list does not stop at the `*` entry, while "+premise+" appends the bindings generated for the wildcard to the same list: a compiled program is printed with bindings after `* = …`, which the parser rejects (the recorded _mrosource does not compile on its own)")
 		}
